@@ -24,6 +24,25 @@ pub fn dur(timeout_ns: u64) -> Duration {
 
 pub type Outs = [Option<PnM>; 2];
 
+pub const WRAP32_NS: u64 = 1 << 32; // 4.29 s
+pub const ONE_S: u64 = 1_000_000_000;
+pub const ONE_H: u64 = 3_600 * ONE_S;
+pub const WRAP32_US: u64 = (1u64 << 32) * 1000; // 71.6 min
+
+/// Clock steps at the boundaries of common representations of time (32-bit nanosecond /
+/// microsecond counters, the seconds/sub-second split of Duration, "one hour"), each landing
+/// `h` ns after the boundary: an age of k*2^32 ns + h with h below the timeout is "expired" for
+/// a correct comparison and "fresh" for a truncating one.
+pub fn hostile_ticks(h: u64) -> [u64; 4] {
+    [WRAP32_NS + h, ONE_S + h, WRAP32_US + h, ONE_H + h]
+}
+
+/// Age class used in explorer keys: ages are capped (correct code cannot distinguish ages at or
+/// beyond the timeout).
+pub fn age_class(age: u64, cap: u64) -> u64 {
+    age.min(cap)
+}
+
 pub fn outs_of(o: &[Option<ParameterNumberMessage>; 2]) -> Outs {
     [o[0].as_ref().map(pnm), o[1].as_ref().map(pnm)]
 }
@@ -212,6 +231,13 @@ impl PollMon {
                 let r = self.poll(*c, rep, path);
                 [r, None]
             }
+            Ev::TickPoll(n, c) => {
+                self.now = self.now.saturating_add(*n);
+                rep.count("poll_ticks", 1);
+                rep.count("poll_polls_after_hostile_clock_step", 1);
+                let r = self.poll(*c, rep, path);
+                [r, None]
+            }
         }
     }
 
@@ -235,17 +261,33 @@ impl PollMon {
         if self.p5 {
             self.p5_rot = self.p5_rot.wrapping_add(1);
             let t = if self.timeout == T_INF { 1_000_000 } else { self.timeout };
-            let delta = match self.p5_rot % 4 {
+            let delta = match self.p5_rot % 8 {
                 0 => t.saturating_sub(1),
                 1 => t,
                 2 => t.saturating_add(1),
-                _ => t.saturating_mul(10).saturating_add(7),
+                3 => t.saturating_mul(10).saturating_add(7),
+                k => hostile_ticks(t / 2)[(k - 4) as usize],
             };
             let mut twin = before;
             set_mock_time(self.now.saturating_add(delta));
             let got2 = api("PollingParameterNumberMessageScanner::feed", || twin.feed(&m));
             set_mock_time(self.now);
             rep.count("poll_p5_time_shifted_feeds", 1);
+            // ... and whatever was pending before or became pending now is still delivered by a
+            // (very) late poll on both twins alike
+            if let (Some(c), Some(_)) = (ev.channel(), got2) {
+                if self.timeout != T_INF {
+                    let late = self.now.saturating_add(delta).saturating_add(self.timeout).saturating_add(ONE_H + 1);
+                    let mut orig = self.real;
+                    set_mock_time(late);
+                    let pa = api("PollingParameterNumberMessageScanner::poll", || orig.poll(ch(c)));
+                    let pb = api("PollingParameterNumberMessageScanner::poll", || twin.poll(ch(c)));
+                    set_mock_time(self.now);
+                    if pa != pb {
+                        rep.violation_p5_late(ev, self.now, delta, pa.flatten().as_ref().map(pnm), pb.flatten().as_ref().map(pnm), self.timeout, path);
+                    }
+                }
+            }
             if got2 != Some(got) {
                 crate::viol!(rep, 
                     "C13:feed-result-depends-on-time",
@@ -485,7 +527,7 @@ impl PollMon {
         normalise_instants(scratch.as_bytes(), self.now, self.age_cap, buf);
         let age = |t: u64| -> u8 { ((self.now - t).min(self.age_cap) / (self.age_cap.max(1) / 4).max(1)).min(250) as u8 };
         // exact age classes: ages are multiples of the explorer's tick; keep the capped age itself
-        let agev = |t: u64| -> [u8; 8] { (self.now - t).min(self.age_cap).to_le_bytes() };
+        let agev = |t: u64| -> [u8; 8] { age_class(self.now - t, self.age_cap).to_le_bytes() };
         let _ = age;
         for o in self.obs.iter() {
             buf.extend_from_slice(&[
@@ -535,7 +577,7 @@ pub fn normalise_instants(src: &[u8], now: u64, cap: u64, out: &mut Vec<u8>) {
                 j += 1;
             }
             j += 1;
-            let age = now.saturating_sub(n).min(cap);
+            let age = age_class(now.saturating_sub(n), cap);
             out.extend_from_slice(b"age(");
             out.extend_from_slice(age.to_string().as_bytes());
             out.push(b')');
